@@ -202,7 +202,17 @@ class _DeviceManagementConnection(ABC):
                 connection_type=ConnectRequestType.DEVICE_MGMT_CONNECTION,
             ),
         )
-        response = await connect.request()
+        # The server may send requests right behind its ConnectResponse - before
+        # this task runs again. They are kept and handled once receiving started.
+        early_requests: list[tuple[KNXIPFrame, HPAI]] = []
+        early_callback = self.transport.register_callback(
+            lambda frame, source, _transport: early_requests.append((frame, source)),
+            [KNXIPServiceType.DEVICE_CONFIGURATION_REQUEST],
+        )
+        try:
+            response = await connect.request()
+        finally:
+            self.transport.unregister_callback(early_callback)
         self.communication_channel = response.communication_channel
         self.sequence_number = 0
         self._data_endpoint_addr = (
@@ -219,6 +229,8 @@ class _DeviceManagementConnection(ABC):
             "Device management connection established. communication_channel=%s",
             self.communication_channel,
         )
+        for frame, source in early_requests:
+            self.transport.handle_knxipframe(frame, source)
 
     async def disconnect(self) -> None:
         """Close the device management connection."""
